@@ -37,6 +37,17 @@ var parseTargets = []struct {
 		c.Policies.AllowV3()
 		c.Receive(b)
 	}},
+	// a conversation that already speaks a version (fragments are collected only then)
+	{"Receive-v3", func(b []byte) {
+		c := otr3.NewConversationWithVersion(3)
+		c.Policies.AllowV3()
+		c.Receive(b)
+	}},
+	{"Receive-v2", func(b []byte) {
+		c := otr3.NewConversationWithVersion(2)
+		c.Policies.AllowV2()
+		c.Receive(b)
+	}},
 }
 
 // inputs enumerates the input space of one target: all short strings over a small alphabet, plus
@@ -48,7 +59,7 @@ func fuzzInputs(target string, rng *rand.Rand, deep bool) [][]byte {
 	switch target {
 	case "ImportKeys":
 		alpha, maxLen = []byte("()\"#a0 \n"), 5
-	case "ExtractInstanceTags", "Receive-fresh":
+	case "ExtractInstanceTags", "Receive-fresh", "Receive-v3", "Receive-v2":
 		alpha, maxLen = []byte("?OTR:|,.A=0"), 4
 	default:
 		alpha, maxLen = []byte{0, 1, 2, 255}, 6
@@ -105,7 +116,7 @@ func fuzzInputs(target string, rng *rand.Rand, deep bool) [][]byte {
 		seeds = append(seeds, ref.PutMPI(ref.PutMPI(ref.PutWord(nil, 2), ref.P), ref.Q), ref.PutWord(nil, 0x10000000), ref.PutWord(nil, 0xffffffff))
 	case "ExtractMPI", "ExtractData":
 		seeds = append(seeds, ref.PutMPI(nil, ref.P), ref.PutWord(nil, 0xffffffff), ref.PutWord(nil, 0x7fffffff))
-	case "ExtractInstanceTags", "Receive-fresh":
+	case "ExtractInstanceTags", "Receive-fresh", "Receive-v3", "Receive-v2":
 		hdr := ref.BuildHeader(3, ref.TypeDHKey, 0x12345678, 0x9abcdef0)
 		seeds = append(seeds, ref.Armor(append(hdr, ref.PutMPI(nil, ref.Q)...)), []byte("?OTR|12345678|9abcdef0,00001,00002,AAAA,"), []byte("?OTR:"), []byte("?OTR:."), []byte("?OTR:AAMK"), []byte("?OTR,1,2,x,"), []byte("?OTRv23?"), []byte("?OTR Error: x"),
 			// complete one-piece fragments whose payload again begins like a fragment, a query, an encoded message
